@@ -26,6 +26,7 @@ import (
 
 	"github.com/pion/datachannel"
 	"github.com/pion/logging"
+	"github.com/pion/sctp"
 	"github.com/pion/webrtc/v4"
 )
 
@@ -91,6 +92,11 @@ type c19Param struct {
 	Protocol string `json:"protocol"`
 	RawType  int    `json:"raw_type"`
 	RawRel   int64  `json:"raw_rel"`
+	// Before: something that makes one Accept fail on the receiving transport,
+	// sent on another stream first: "oversize" (DATA_CHANNEL_OPEN > 8192 bytes),
+	// "badtype" (channel type 0x7f), "data-first" (a data message on a stream
+	// that has no channel). The channel of the case must still be announced.
+	Before string `json:"before,omitempty"`
 }
 
 func (p c19Param) label() string {
@@ -177,6 +183,13 @@ func c19ParamRun(in c19Param) (V, Verdict) {
 		default:
 		}
 	})
+	acceptErr := make(chan error, 4) // a single Accept failed; the loop goes on
+	tb.OnError(func(err error) {
+		select {
+		case acceptErr <- err:
+		default:
+		}
+	})
 	errs := make(chan error, 2)
 	go func() { errs <- ta.VerifStartOver(ca) }()
 	go func() { errs <- tb.VerifStartOver(cb) }()
@@ -194,6 +207,35 @@ func c19ParamRun(in c19Param) (V, Verdict) {
 	var obs VL
 	bothSet := in.MR >= 0 && in.MPLT >= 0
 	class := ""
+	if in.Before != "" {
+		var err error
+		switch in.Before {
+		case "oversize":
+			_, err = datachannel.Dial(ta.VerifAssociation(), 6, &datachannel.Config{
+				ChannelType: datachannel.ChannelTypeReliable, Priority: datachannel.ChannelPriorityNormal,
+				Label: strings.Repeat("B", 9000), LoggerFactory: quietLF()})
+		case "badtype":
+			_, err = datachannel.Dial(ta.VerifAssociation(), 6, &datachannel.Config{
+				ChannelType: datachannel.ChannelType(0x7f), Priority: datachannel.ChannelPriorityNormal,
+				Label: "bad", LoggerFactory: quietLF()})
+		case "data-first":
+			var st *sctp.Stream
+			if st, err = ta.VerifAssociation().OpenStream(6, sctp.PayloadTypeWebRTCString); err == nil {
+				_, err = st.WriteSCTP([]byte("early"), sctp.PayloadTypeWebRTCString)
+			}
+		}
+		if err != nil {
+			return VS("before"), Fail("disturbing-open-could-not-be-sent", err.Error())
+		}
+		select { // the receiving side has seen (and refused) it
+		case <-acceptErr:
+		case e := <-acceptDied:
+			return VS("accept-ended"), Fail("failed-open-ends-accept-loop",
+				fmt.Sprintf("after a %s open acceptDataChannels ended (%v): no later in-band channel can appear", in.Before, e))
+		case <-time.After(8 * time.Second):
+			return VS("before"), Fail("disturbing-open-not-noticed", in.Before)
+		}
+	}
 	switch in.Mode {
 	case 0:
 		d, err := api.NewDataChannel(ta, &webrtc.DataChannelParameters{
@@ -229,18 +271,22 @@ func c19ParamRun(in c19Param) (V, Verdict) {
 		class = fmt.Sprintf("raw/type%#02x", in.RawType)
 	}
 	var remote *webrtc.DataChannel
+	oversize := len(label)+len(in.Protocol) > c19DCEPOpenBudget
 	select {
 	case remote = <-got:
-	case err := <-acceptDied:
+	case err := <-acceptErr: // this open was refused, the loop goes on
 		if in.Mode == 1 && !c19ValidType(in.RawType) {
 			return append(obs, VL{}), Pass("raw/invalid-type-refused", false)
 		}
-		if len(label)+len(in.Protocol) > c19DCEPOpenBudget {
-			return append(obs, VL{}), Fail("dcep-open-over-8192-bytes-ends-accept-loop",
-				fmt.Sprintf("acceptDataChannels ended (%v) instead of announcing the channel: label %d bytes + protocol %d bytes + 12 > 8192",
+		if oversize {
+			return append(obs, VL{}), Fail("dcep-open-over-8192-bytes-not-announced",
+				fmt.Sprintf("Accept failed (%v) instead of announcing the channel: label %d bytes + protocol %d bytes + 12 > 8192",
 					err, len(label), len(in.Protocol)))
 		}
-		return append(obs, VL{}), Fail("accept-loop-ended-on-valid-open",
+		return append(obs, VL{}), Fail("accept-failed-on-valid-open",
+			fmt.Sprintf("Accept failed (%v): label %d bytes, protocol %d bytes", err, len(label), len(in.Protocol)))
+	case err := <-acceptDied:
+		return append(obs, VL{}), Fail("failed-open-ends-accept-loop",
 			fmt.Sprintf("acceptDataChannels ended (%v): label %d bytes, protocol %d bytes", err, len(label), len(in.Protocol)))
 	case <-time.After(8 * time.Second):
 		return append(obs, VL{}), Fail("in-band-channel-not-announced",
@@ -282,6 +328,9 @@ func c19ParamRun(in c19Param) (V, Verdict) {
 		return obs, Fail("remote-negotiated-set", "an in-band channel reports negotiated=true remotely")
 	case remote.ID() == nil || *remote.ID() != id:
 		return obs, Fail("remote-id-differs", "stream id differs")
+	}
+	if in.Before != "" {
+		class = "after-" + in.Before + "/" + class
 	}
 	v := Pass(class, true)
 	return obs, v
@@ -562,10 +611,13 @@ func c19ConnRun(in c19Conn) (V, Verdict) {
 	// acceptDataChannels ending is reported through SCTPTransport.OnClose: an
 	// explicit signal that no further in-band channel will be announced
 	acceptDied := [2]chan struct{}{make(chan struct{}), make(chan struct{})}
+	// a single failed Accept is reported through SCTPTransport.OnError
+	acceptErr := [2]chan struct{}{make(chan struct{}), make(chan struct{})}
 	for k, pc := range []*webrtc.PeerConnection{off, ans} {
-		var once sync.Once
-		ch := acceptDied[k]
+		var once, onceE sync.Once
+		ch, che := acceptDied[k], acceptErr[k]
 		pc.SCTP().OnClose(func(error) { once.Do(func() { close(ch) }) })
+		pc.SCTP().OnError(func(error) { onceE.Do(func() { close(che) }) })
 	}
 
 	create := func(r *c19ChanRun) error {
@@ -625,7 +677,7 @@ func c19ConnRun(in c19Conn) (V, Verdict) {
 			select {
 			case <-r.opened:
 			case <-ctx.Done():
-				return VS("open"), c19OpenFailure(r, in.Chans, "sender-side channel never opened")
+				return VS("open"), c19OpenFailure(r, "sender-side channel never opened")
 			}
 			break
 		}
@@ -647,7 +699,7 @@ func c19ConnRun(in c19Conn) (V, Verdict) {
 			select {
 			case <-r.opened:
 			case <-ctx.Done():
-				v := c19OpenFailure(r, in.Chans, "sender-side channel never opened")
+				v := c19OpenFailure(r, "sender-side channel never opened")
 				r.fail = &v
 				return
 			}
@@ -655,12 +707,19 @@ func c19ConnRun(in c19Conn) (V, Verdict) {
 			if c.FromAnswerer {
 				rside = 0
 			}
-			died := acceptDied[rside]
+			died, refused := acceptDied[rside], acceptErr[rside]
+			if c.Negotiated || len(c.label())+len(c.Protocol) <= c19DCEPOpenBudget {
+				refused = nil // an Accept failure on that peer is about another channel
+			}
 		waitRemote:
 			for {
 				select {
 				case <-r.ropened:
 					break waitRemote
+				case <-refused:
+					v := c19OpenFailure(r, "the receiver's Accept failed on this channel's DATA_CHANNEL_OPEN")
+					r.fail = &v
+					return
 				case <-died:
 					// no further announcement will come; a channel that has been
 					// announced already still opens (its OnOpen runs in its own goroutine)
@@ -668,13 +727,13 @@ func c19ConnRun(in c19Conn) (V, Verdict) {
 					announced := r.remote != nil
 					annMu.Unlock()
 					if !announced {
-						v := c19OpenFailure(r, in.Chans, "receiver's acceptDataChannels ended before announcing the channel")
+						v := c19OpenFailure(r, "receiver's acceptDataChannels ended before announcing the channel")
 						r.fail = &v
 						return
 					}
 					died = nil
 				case <-ctx.Done():
-					v := c19OpenFailure(r, in.Chans, "receiver-side channel never announced/opened")
+					v := c19OpenFailure(r, "receiver-side channel never announced/opened")
 					r.fail = &v
 					return
 				}
@@ -781,17 +840,13 @@ func c19ConnRun(in c19Conn) (V, Verdict) {
 	return obs, verdict
 }
 
-// a channel that never opens: the cause is named narrowly when an in-band
-// DATA_CHANNEL_OPEN above pion/datachannel's 8192-byte buffer went to the same
-// receiving peer (it ends that peer's accept loop for every later channel)
-func c19OpenFailure(r *c19ChanRun, all []c19Chan, what string) Verdict {
+// a channel that never opens: the cause is named narrowly when its own
+// DATA_CHANNEL_OPEN exceeds pion/datachannel's 8192-byte read buffer
+func c19OpenFailure(r *c19ChanRun, what string) Verdict {
 	c := r.spec
-	for _, o := range all {
-		if !o.Negotiated && o.FromAnswerer == c.FromAnswerer && len(o.label())+len(o.Protocol) > c19DCEPOpenBudget {
-			return Fail("dcep-open-over-8192-bytes-ends-accept-loop",
-				fmt.Sprintf("%s (label %s): an open with label %d bytes + protocol %d bytes + 12 > 8192 went to the same peer",
-					what, trunc(c.label()), len(o.label()), len(o.Protocol)))
-		}
+	if !c.Negotiated && len(c.label())+len(c.Protocol) > c19DCEPOpenBudget {
+		return Fail("dcep-open-over-8192-bytes-not-announced",
+			fmt.Sprintf("%s: label %d bytes + protocol %d bytes + 12 > 8192", what, len(c.label()), len(c.Protocol)))
 	}
 	return Fail("channel-did-not-open", fmt.Sprintf("%s (label %s)", what, trunc(c.label())))
 }
@@ -1015,6 +1070,10 @@ func init() {
 				// DATA_CHANNEL_OPEN larger than pion/datachannel's 8192-byte read buffer
 				{Mode: 0, Ordered: true, MR: -1, MPLT: -1, LabelLen: c19DCEPOpenBudget, Protocol: "p"},
 				{Mode: 0, Ordered: false, MR: 3, MPLT: -1, LabelLen: 20000, Protocol: "proto"},
+				// fixed: one failed Accept used to end acceptDataChannels for good
+				{Mode: 0, Ordered: true, MR: -1, MPLT: -1, Label: "after", Protocol: "p", Before: "oversize"},
+				{Mode: 0, Ordered: false, MR: 2, MPLT: -1, Label: "after", Protocol: "p", Before: "badtype"},
+				{Mode: 0, Ordered: true, MR: -1, MPLT: 50, Label: "after", Protocol: "p", Before: "data-first"},
 			}
 		},
 		Exhaustive: c19ParamCases,
